@@ -430,9 +430,93 @@ structure Assign where
   value : Val
   deriving DecidableEq, Repr, FromJson, ToJson, Inhabited
 
+/-! ## Hook expressions as written: trees -/
+
+/-- an `on_setattr` callable as written: a setter, or `setters.pipe(*members)` whose members are again such
+    callables (a list / tuple argument is `pipe(*list)`: `attrib()` / `attrs()`) -/
+inductive Hook where
+  | leaf (s : Setter)
+  | pipe (l : List Hook)
+  deriving Repr, FromJson, ToJson, Inhabited
+
+mutual
+/-- the setters of a hook expression, depth-first, left to right -/
+def Hook.flatten : Hook → List Setter
+  | .leaf s => [s]
+  | .pipe l => flattenList l
+def flattenList : List Hook → List Setter
+  | [] => []
+  | h :: t => h.flatten ++ flattenList t
+end
+
+/-- an `on_setattr=` argument as written (field or class level) -/
+inductive OnW where
+  | unset | noop
+  | hook (h : Hook)
+  deriving Repr, FromJson, ToJson, Inhabited
+
+def OnW.toField : OnW → FieldOn
+  | .unset => .unset
+  | .noop => .noop
+  | .hook h => .chain h.flatten
+
+/-- class level: only a bare built-in setter is recognised by the builder's normalisation (by identity) -/
+def OnW.toCls : OnW → ClsOn
+  | .unset => .unset
+  | .noop => .noop
+  | .hook (.leaf s) => .bare s
+  | .hook (.pipe l) => .list (flattenList l)
+
+structure FieldW where
+  name : String
+  tag : String
+  conv : Option Conv
+  validators : Nat
+  onSet : OnW
+  init : Bool := true
+  dflt : Bool := false
+  deriving Repr, FromJson, ToJson, Inhabited
+
+def FieldW.flat (f : FieldW) : Field :=
+  { name := f.name, tag := f.tag, conv := f.conv, validators := f.validators, onSet := f.onSet.toField,
+    init := f.init, dflt := f.dflt }
+
+structure ClsW where
+  kind : Kind
+  isDefine : Bool
+  frozenArg : Bool
+  slots : Bool
+  clsOn : OnW
+  ownSetattr : Bool
+  autoDetect : Bool
+  fields : List FieldW
+  mixin : Option Bool := none
+  deriving Repr, FromJson, ToJson, Inhabited
+
+/-- the class with every hook expression flattened: what the rest of the model works on.  That running a
+    nested expression the way `setters.pipe` does (members called in order, a member pipe running its own
+    members) is running its flattening is `C06_tree_runs_flat`. -/
+def ClsW.flat (c : ClsW) : Cls :=
+  { kind := c.kind, isDefine := c.isDefine, frozenArg := c.frozenArg, slots := c.slots, clsOn := c.clsOn.toCls,
+    ownSetattr := c.ownSetattr, autoDetect := c.autoDetect, fields := c.fields.map FieldW.flat, mixin := c.mixin }
+
+mutual
+/-- a hook expression called the way the real objects are: a pipe calls its members in order with the value
+    so far; a member that is itself a pipe does the same with its own members -/
+def runHook (rv : Bool) (fault : Option Nat) (f : Field) : Hook → List Event → Val → List Event × Except Exc Val
+  | .leaf s, tr, v => runSetter rv fault f s tr v
+  | .pipe l, tr, v => runHooks rv fault f l tr v
+def runHooks (rv : Bool) (fault : Option Nat) (f : Field) : List Hook → List Event → Val → List Event × Except Exc Val
+  | [], tr, v => (tr, .ok v)
+  | h :: t, tr, v =>
+    match runHook rv fault f h tr v with
+    | (tr', .ok v') => runHooks rv fault f t tr' v'
+    | (tr', .error x) => (tr', .error x)
+end
+
 structure Case where
-  /-- the chain, root first; instances are made of the last class -/
-  classes : List Cls
+  /-- the chain as written, root first; instances are made of the last class -/
+  classes : List ClsW
   /-- every field preset to `i.<name>` with `object.__setattr__` before the history (else nothing is set) -/
   preset : Bool
   /-- the global validator switch during the history -/
@@ -442,7 +526,10 @@ structure Case where
   fault : Option (Nat × Nat)
   /-- the type of exception that callback raises -/
   faultKind : Option FaultKind := none
-  deriving DecidableEq, Repr, FromJson, ToJson, Inhabited
+  deriving Repr, FromJson, ToJson, Inhabited
+
+/-- the chain the model works on -/
+def Case.cls (c : Case) : List Cls := c.classes.map ClsW.flat
 
 structure StepObs where
   exc : Option Exc
@@ -522,7 +609,7 @@ def runHistory (rt : CState) (rv : Bool) (fault : Option (Nat × Nat)) (k : Opti
       :: runHistory rt rv fault k ps (i + 1) r.1 rest
 
 def model (c : Case) : Obs :=
-  match defineChain c.classes with
+  match defineChain c.cls with
   | .error e => { defErr := some e, steps := [] }
   | .ok rt =>
     let st0 := if c.preset then presetStore rt else []
